@@ -108,7 +108,7 @@ func wcnfCase(r *rand.Rand, n int, cons []gen.M) gen.M {
 
 func init() {
 	register(&core.Check{
-		ID:          "C04",
+		ID: "C04",
 		Designs: []core.Design{
 			{Name: "maxsat-encoding", Module: "MaxSat", Cfg: "MaxSat_intended.cfg", Workers: 8, XmxMB: 6000, Timeout: 10 * time.Minute, ToCases: maxsatCases},
 			{Name: "maxsat-encoding-one", Module: "MaxSat", Cfg: "MaxSat_ascoded.cfg", Workers: 1, XmxMB: 2000, Timeout: 5 * time.Minute, ExpectViolation: "EncodingCorrect"},
@@ -134,6 +134,7 @@ func init() {
 					c["ev"] = []gen.M{gen.Op("solve")}
 					if r.Intn(2) == 0 { // the same constraint values handed to New a second time
 						c["ev"] = []gen.M{gen.Op("solve"), gen.Op("solve")}
+
 						if r.Intn(2) == 0 && n >= 2 { // with a hard PB constraint whose coefficients are not sorted
 							k := 2 + r.Intn(min(n, 4)-1)
 							lits := gen.DistinctLits(r, n, k)
